@@ -22,7 +22,7 @@ CLAIM = dict(cat="proof", design="§3 C07, Appendix A.5",
         "Tie, every run: the real task table (harness includes the real translation unit and calls the real functions on a real DensitySubGridCreator) is diffed with make_graph for every layout <= 3x3x3 (thorough 4x4x4 + random larger) x 8 periodicities, "
         "wf_check AND phases_ordered_check (extracted) are evaluated on the REAL table - when the real table fails the phase order and has no dependency path t1 -> t2, a legal execution order (topological order of the ancestors of t2 in the REAL table) is executed on the REAL task objects (real counters, locks, decrement) and t2 is observed to start while t1 has not run: VIOLATION kind phase_order -, "
         "every real run (virtual threads and real OpenMP threads) is also checked by an independent phase oracle (a task touching s starts only after all earlier-phase tasks touching s stopped), a hydro step is run on the real Task/TaskQueue/ThreadLock/AtomicValue objects with interleaved virtual threads that run is replayed label by label through the model's step function, the REAL worker loop (source lines of do_simulation included verbatim) is run on real OpenMP threads, "
-        "and an independent oracle checks property C07 on the real run.",
+        "and an independent oracle checks property C07 on the real run. A structural guard requires reset_hydro_tasks to precede the parallel region (the model's step starts from a completely reset table).",
    note="Trusted: Coq kernel; ExtrOcamlBasic extraction + OCaml driver + Python oracle (correspondence only). make_graph_wf is proved for ALL layouts (nothing partial); that make_graph is the table the code builds is tied at run time (differential dump, plus wf_check evaluated on the dumped real tables). "
         "Abstractions, argued not proved: lock_dependency is one atomic step (its transient hold of the first lock only adds failed fetches, which the model allows at any time); the per-thread LIFO queues with stealing are one multiset with arbitrary choice; "
         "execute_task is not modelled (its footprint = Task::_subgrid and, for pair tasks, Task::_buffer, as in execute_task's switch). The virtual-thread executor of the harness re-types the loop skeleton (the real loop is inside do_simulation); every shared-data operation in it is the real member function. "
